@@ -196,7 +196,7 @@ def run_strip(spec, rec: Recorder):
         for op in ("unprotect", "protect"):
             for api in ("sync", "async"):
                 for form in ("seed", "public"):
-                    for variant in ("evil-envelope", "same-stub", "with-pad", "level-1", "level-2", "level-4", "level-5", "type-0", "prepend-unsealed-fragment", "prepend-unsealed-fragment-no-hresult", "append-unsealed-fragment", "stripped-bind-ack", "fragmented-legit", "fragmented-evil-tail", "fragmented-evil-tail-3", "fragmented-evil-middle", "challenge-flags-cleared", "mapper-names-port-135"):
+                    for variant in ("evil-envelope", "same-stub", "with-pad", "level-1", "level-2", "level-4", "level-5", "type-0", "prepend-unsealed-fragment", "prepend-unsealed-fragment-no-hresult", "append-unsealed-fragment", "stripped-bind-ack", "fragmented-legit", "fragmented-evil-tail", "fragmented-evil-tail-3", "fragmented-evil-middle", "challenge-flags-cleared", "mapper-names-port-135", "short-auth-1", "short-auth-8", "short-auth-15", "long-auth-17", "long-auth-32"):
 
                         if variant == "mapper-names-port-135" and w.sec == "negotiate":
                             # (a SPNEGO initiator that is handed empty server tokens re-emits its token: against this rogue
@@ -234,6 +234,23 @@ def run_strip(spec, rec: Recorder):
                                 return frag + out if first else out + frag
                             if variant == "stripped-bind-ack":
                                 pass  # handled by the bind tamper below; the reply itself is the cleartext evil stub
+                            if variant.startswith(("short-auth-", "long-auth-")):
+                                # an authentic-looking PKT_PRIVACY trailer stays, but auth_len announces a signature of another
+                                # size (shorter: a truncated copy; longer: zero-extended) and the attacker's cleartext stub sits
+                                # where the ciphertext was: "has a trailer" must not be enough, the context has to verify it
+                                k = int(variant.rsplit("-", 1)[1])
+                                al = int.from_bytes(out[10:12], "little")
+                                off = len(out) - al - 8
+                                trailer = bytearray(out[off : off + 8])
+                                padn = -len(stub) % 16
+                                trailer[2] = padn
+                                body = stub + b"\x00" * padn
+                                sig = (out[off + 8 :] + bytes(k))[:k]
+                                hdr = bytearray(out[:24])
+                                hdr[8:10] = struct.pack("<H", 24 + len(body) + 8 + k)
+                                hdr[10:12] = struct.pack("<H", k)
+                                hdr[16:20] = struct.pack("<I", len(body))
+                                return bytes(hdr) + body + bytes(trailer) + sig
                             if variant.startswith(("level-", "type-")):
                                 # keep a security trailer (so 'no trailer' checks pass) but announce a weaker level /
                                 # no provider, and put the attacker's cleartext stub where the ciphertext was
